@@ -37,9 +37,49 @@ def must_be_handled(cfg, case, impl, due, last_time):
     return due < last_time or (completed(case, impl) and (D is None or due <= D))
 
 
+_LAST = {}
+
+
+def run_with_recorder(case, behaviour, cls):
+    """run the real simulator with the harness's own extension of simimpl.Recorder (which registers
+    itself in _LAST); returns (result, recorder)"""
+    old = simimpl.Recorder
+    simimpl.Recorder = cls
+    try:
+        res = simimpl.run_impl(case, behaviour, draw_seed=case.get("seed", 0))
+    finally:
+        simimpl.Recorder = old
+    return res, _LAST.pop("rec", None)
+
+
 # ================================================================================================
 # C11
 # ================================================================================================
+class CmdPosRecorder(simimpl.Recorder):
+    """the harness's own recording for C11: every node's position (public `get_node(i).position`)
+    right before and right after each mobility command is handed to the provider"""
+
+    def __init__(self, scn, behaviour=None):
+        super().__init__(scn, behaviour)
+        self.cmd_pos = []
+        _LAST["rec"] = self
+
+    def snap(self):
+        try:
+            return [v3bits(self.sim.get_node(i).position) for i in range(self.scn["cfg"]["nNodes"])]
+        except Exception:
+            return None
+
+    def perform(self, proto, req):
+        if req[0] in ("goto", "gotoGeo", "setSpeed") and self.sim is not None:
+            before = self.snap()
+            try:
+                return super().perform(proto, req)
+            finally:
+                self.cmd_pos.append([len(self.trace), req[0], before, self.snap()])
+        return super().perform(proto, req)
+
+
 def walk_motion(case, impl):
     """Replays the implementation's trace against the statement of C11.
     Returns (fails, info); info counts, per node, partial steps / arrivals / ticks at rest / mid-flight
@@ -49,7 +89,7 @@ def walk_motion(case, impl):
     dts = bitsf(cfg["dtS"])
     fails = []
     info = {"partial": [0] * n, "arrive": [0] * n, "rest": [0] * n, "retarget": [0] * n,
-            "speedchange": [0] * n, "ticks": 0, "judged": 0, "exact": 0, "events": 0}
+            "speedchange": [0] * n, "ticks": 0, "judged": 0, "exact": 0, "events": 0, "commands": 0}
     pos = [bitsv3(p) for p in cfg["initPos"]]
     tgt = [None] * n            # None: no target; "?": a geographic target (not judged); else a 3-tuple
     spd = [bitsf(cfg["defaultSpeed"])] * n
@@ -63,6 +103,40 @@ def walk_motion(case, impl):
         if len(fails) < 12:
             fails.append((sig, msg))
 
+    dt = cfg["dt"]
+    updates_seen, idle_seen = set(), set()
+
+    def should_move(i):
+        return tgt[i] not in (None, "?") and pos[i] != tgt[i] and spd[i] * dts > 0
+
+    def silent_is_update(ts, new_pos):
+        """an executed event without protocol callbacks is the mobility update of its instant (k*dt, once per
+        instant) — unless nothing moved although somebody had to: then it is some other silent event (a cancelled
+        timer's), and the update of that instant must still follow (checked below: C11:update-skipped)"""
+        if not (is_int(ts) and dt > 0 and ts > 0 and ts % dt == 0) or ts in updates_seen:
+            return False
+        if new_pos == pos:
+            if any(should_move(i) for i in range(n)):
+                return False
+            idle_seen.add(ts)          # nobody moved, nobody had to: the update or another silent event — either way fine
+            return True
+        updates_seen.add(ts)
+        return True
+
+    def check_skipped(ts):
+        # every update instant strictly before `ts` must have been seen by now
+        if is_int(ts) and dt > 0:
+            kt = ((ts - 1) // dt) * dt if ts > 0 else 0
+            if kt >= dt and kt not in updates_seen and kt not in idle_seen and cfg["hasMob"]:
+                updates_seen.add(kt)
+                add("C11:update-skipped", f"no mobility update was observed at {kt} (update interval {dt}), events now at {ts}")
+
+    for idx, op, before, after in impl.get("cmdPos", []):
+        info["commands"] += 1
+        if before is not None and before != after:
+            i = next(i for i in range(n) if before[i] != after[i])
+            add("C11:moved-by-command", f"the {op} command (trace entry {idx}) itself moved node {i} from "
+                                        f"{bitsv3(before[i])} to {bitsv3(after[i])}")
     for e in impl["trace"]:
         if e[0] == "cb":
             if e[2] not in ("initialize", "finish"):
@@ -93,6 +167,7 @@ def walk_motion(case, impl):
             new_pos = [bitsv3(p) for p in samples[k]]
             k += 1
             info["events"] += 1
+            check_skipped(e[3])
             if had_cb:
                 # an event that ran protocol callbacks (timer, packet, telemetry): nobody moves — in
                 # particular a goto / set-speed issued from it does not move the node
@@ -101,6 +176,13 @@ def walk_motion(case, impl):
                         add("C11:moved-outside-update",
                             f"node {i} moved from {pos[i]} to {new_pos[i]} during an event that is not a mobility "
                             f"update (time {e[3]}, iteration {e[2]})")
+            elif not silent_is_update(e[3], new_pos):
+                # a silent event that is not the mobility update (a cancelled timer's event): nobody moves
+                for i in range(n):
+                    if new_pos[i] != pos[i]:
+                        add("C11:moved-outside-update",
+                            f"node {i} moved from {pos[i]} to {new_pos[i]} during a silent event at {e[3]} that is not "
+                            f"the mobility update of that instant")
             else:
                 info["ticks"] += 1
                 for i in range(n):
@@ -175,9 +257,9 @@ class C11(SimCheck):
                      "setRange": 0, "gotoGeo": 0},
                "pTelemetry": 0.3, "speeds": [10.0, 4.0, 0.5, 64.0, 0.0, 3.3, 17.7, 1.0, 25.0],
                "horizon": 24 * 1024, "budget": 90, "maxReq": 3}
-    quick_n = 260
+    quick_n = 200
     thorough_n = 6000
-    exact_quick = 140
+    exact_quick = 120
     exact_thorough = 3000
 
     # -- generators ---------------------------------------------------------------------------
@@ -280,6 +362,11 @@ class C11(SimCheck):
             diffs.append(f"final positions differ: implementation {impl.get('finalPositions')} vs model {model.get('finalPositions')}")
         return diffs
 
+    def run_impl(self, case):
+        res, rec = run_with_recorder(case, self.behaviour(case), CmdPosRecorder)
+        res["cmdPos"] = rec.cmd_pos if rec is not None else []
+        return res
+
     def oracle(self, case, impl):
         fails = self.crash_fail(impl)
         f, _ = walk_motion(case, impl)
@@ -301,6 +388,7 @@ class C11(SimCheck):
                          ("retarget", "midflight_retargets"), ("speedchange", "midflight_speed_changes")):
             acc[name] = acc.get(name, 0) + sum(info[k_])
         acc["mobility_updates"] = acc.get("mobility_updates", 0) + info["ticks"]
+        acc["commands_observed_before_after"] = acc.get("commands_observed_before_after", 0) + info["commands"]
         acc["node_updates_judged"] = acc.get("node_updates_judged", 0) + info["judged"]
         acc["exact_lattice_arrivals"] = acc.get("exact_lattice_arrivals", 0) + info["exact"]
         acc["position_samples_compared_bitwise"] = acc.get("position_samples_compared_bitwise", 0) + \
@@ -314,9 +402,6 @@ QUADS = [(1, 2, 2, 3), (2, 3, 6, 7), (1, 4, 8, 9), (4, 4, 7, 9), (2, 6, 9, 11), 
          (2, 5, 14, 15), (2, 10, 11, 15), (0, 3, 4, 5), (0, 6, 8, 10), (0, 0, 6, 6), (1, 12, 12, 17), (8, 9, 12, 17),
          (4, 5, 20, 21), (6, 10, 15, 19)]
 assert all(a * a + b * b + c * c == d * d for a, b, c, d in QUADS)
-
-_LAST = {}
-
 
 class SendPosRecorder(simimpl.Recorder):
     """the harness's own recording for C09: every node's position (public `get_node(i).position`) at
@@ -339,13 +424,7 @@ class SendPosRecorder(simimpl.Recorder):
 
 
 def run_with_send_positions(case, behaviour):
-    old = simimpl.Recorder
-    simimpl.Recorder = SendPosRecorder
-    try:
-        res = simimpl.run_impl(case, behaviour, draw_seed=case.get("seed", 0))
-    finally:
-        simimpl.Recorder = old
-    rec = _LAST.pop("rec", None)
+    res, rec = run_with_recorder(case, behaviour, SendPosRecorder)
     res["sendPos"] = rec.send_pos if rec is not None else []
     return res
 
@@ -771,3 +850,89 @@ class FreqBehaviour:
 
 
 CHECKS = {"C09": C09, "C10": C10, "C11": C11}
+
+
+# ================================================================================================
+# hand-written hot cases (written to corpus/Cxx/*.json by `python harness/props_motion.py --write-corpus`)
+# ================================================================================================
+def _cfg(n, pos, **kw):
+    cfg = {"nNodes": n, "hasTimer": True, "hasComm": True, "hasMob": True,
+           "handlers": ["timer", "communication", "mobility"], "duration": 8192, "maxIter": None, "delay": 0,
+           "failRate": fbits(0.0), "defaultRange": fbits(60.0), "dt": 1024, "dtS": fbits(1.0),
+           "defaultSpeed": fbits(10.0), "refGeo": [fbits(0.0)] * 3,
+           "initPos": [[fbits(float(c)) for c in p] for p in pos], "draws": []}
+    cfg.update(kw)
+    cfg["dtS"] = fbits(cfg["dt"] / TICK)
+    return cfg
+
+
+def _row(n, cb, key, t, reqs):
+    return {"n": n, "cb": cb, "key": key, "t": t, "reqs": reqs}
+
+
+def _goto(p):
+    return ["goto"] + v3bits([float(c) for c in p])
+
+
+def hot_cases():
+    out = {}
+    # C11: distance 5 at speed 2, dt 1: 2, 4, 5 (clamped), then at rest; a second node retargeted mid-flight and
+    # slowed down; a third node without target
+    out[("C11", "clamp_rest_retarget")] = {
+        "cfg": _cfg(3, [(0, 0, 0), (10, 0, 5), (-3, 7, 2)], duration=12 * 1024),
+        "table": [_row(0, "initialize", "", 0, [["setSpeed", fbits(2.0)], _goto((5, 0, 0))]),
+                  _row(1, "initialize", "", 0, [_goto((10, 40, 5)), ["setSpeed", fbits(4.0)]]),
+                  _row(1, "telemetry", "", 3 * 1024, [_goto((10, -8, 5))]),
+                  _row(1, "telemetry", "", 5 * 1024, [["setSpeed", fbits(8.0)]])],
+        "drive": {"mode": "start"}, "seed": 1, "frozen": True, "wantPos": True, "regime": "exact", "profile": {}}
+    # C11: a diagonal (3,4,12)/13 flight at a non-dyadic speed, target reached exactly, zero speed in between
+    out[("C11", "diagonal_zero_speed")] = {
+        "cfg": _cfg(1, [(1, 1, 1)], dt=512, duration=16 * 512),
+        "table": [_row(0, "initialize", "", 0, [_goto((4, 5, 13)), ["setSpeed", fbits(3.3)]]),
+                  _row(0, "telemetry", "", 2 * 512, [["setSpeed", fbits(0.0)]]),
+                  _row(0, "telemetry", "", 4 * 512, [["setSpeed", fbits(7.1)]])],
+        "drive": {"mode": "steps", "n": 40}, "seed": 2, "frozen": True, "wantPos": True, "regime": "general", "profile": {}}
+    # C09: node 1 exactly on node 0's boundary (2,3,6 / 7); node 1 shrinks its own range to 6: 0->1 delivered,
+    # 1->0 not; a negative range is refused; node 1 flies away during the 3 s delay and still receives
+    out[("C09", "boundary_asymmetric_moving")] = {
+        "cfg": _cfg(3, [(0, 0, 0), (2, 3, 6), (2, 3, 7)], defaultRange=fbits(7.0), delay=3072, duration=10240,
+                    defaultSpeed=fbits(64.0)),
+        "table": [_row(0, "initialize", "", 0, [["broadcast", "b0"], ["setRange", fbits(-1.0)], ["send", "u0", 1]]),
+                  _row(1, "initialize", "", 0, [["setRange", fbits(6.0)], ["send", "u1", 0], _goto((40, 40, 6)),
+                                                 ["setTimer", "a", 2048]]),
+                  _row(1, "timer", "a", 2048, [["setRange", fbits(1000.0)], ["send", "v1", 0]]),
+                  _row(2, "initialize", "", 0, [["send", "u2", 0], ["setRange", fbits(0.0)], ["send", "w2", 1]])],
+        "drive": {"mode": "start"}, "seed": 3, "frozen": True, "profile": {}}
+    # C10: rate 1/2, a broadcast to three receivers with draws 0.75 (passes), exactly 0.5 (lost), 0.25 (lost), then a
+    # unicast with the draw one ulp above the rate (passes)
+    rate = 0.5
+    out[("C10", "mixed_fates_equal_rate")] = {
+        "cfg": _cfg(4, [(0, 0, 0), (1, 0, 0), (2, 0, 0), (3, 0, 0)], hasMob=False, handlers=["communication", "timer"],
+                    failRate=fbits(rate), delay=1024, duration=None,
+                    draws=[fbits(v) for v in (0.75, rate, 0.25, math.nextafter(rate, 1.0), math.nextafter(rate, 0.0), 0.0, ALMOST_ONE)]),
+        "table": [_row(0, "initialize", "", 0, [["broadcast", "b0"], ["send", "u0", 2]]),
+                  _row(1, "packet", "b0", 1024, [["broadcast", "b1"]])],
+        "drive": {"mode": "start"}, "seed": 4, "frozen": True, "prescribedDraws": True, "drawMode": "edge", "profile": {}}
+    # C10: the extremes on one program: rate 1 (nothing delivered, one draw per copy), rate 0 (no draw at all)
+    for nm, r_ in (("rate_one", 1.0), ("rate_zero", 0.0)):
+        out[("C10", nm)] = {
+            "cfg": _cfg(3, [(0, 0, 0), (1, 0, 0), (2, 0, 0)], hasMob=False, handlers=["timer", "communication"],
+                        failRate=fbits(r_), delay=0, duration=None),
+            "table": [_row(0, "initialize", "", 0, [["broadcast", "b0"], ["send", "u0", 1], ["setTimer", "a", 512]]),
+                      _row(0, "timer", "a", 512, [["broadcast", "b1"]]),
+                      _row(2, "finish", "", 512, [["broadcast", "late"]])],
+            "drive": {"mode": "start"}, "seed": 5, "frozen": True, "drawMode": "seeded", "profile": {}}
+    return out
+
+
+if __name__ == "__main__":
+    import json
+    import sys
+    from common import VERIF
+    if "--write-corpus" in sys.argv:
+        for (prop, name), scn in hot_cases().items():
+            d = VERIF / "corpus" / prop
+            d.mkdir(parents=True, exist_ok=True)
+            scn["label"] = f"corpus/{name}.json"
+            (d / f"{name}.json").write_text(json.dumps(scn, indent=1) + "\n")
+            print("wrote", d / f"{name}.json")
